@@ -107,8 +107,12 @@ func (s *state) removeTorrent(h core.InfoHash, err error) {
 	if !ok {
 		return
 	}
+	// Close the conns of the torrent whether or not it is complete: a removed
+	// dispatcher which kept its conns would go on serving pieces over them,
+	// unseen by the control a later conn creates for the same torrent, which
+	// would then be dropped as idle while the torrent is being read.
+	ctrl.dispatcher.TearDown()
 	if !ctrl.dispatcher.Complete() {
-		ctrl.dispatcher.TearDown()
 		s.announceQueue.Eject(h)
 		for _, errc := range ctrl.errors {
 			errc <- err
